@@ -1,0 +1,25 @@
+//go:build verif
+
+// Verification contracts (comments only; compiled only with -tags verif).
+// Checked by /verif/bin/govc; see /verif/DESIGN.md.
+
+package standard
+
+//@ type Service
+//@   guarded_by beaconBlockRootsMu: beaconBlockRoots
+//@   // established by New
+//@   valid self.beaconBlockRoots != nil
+//@
+//@ // ---- C20: the head roots kept for aggregation stay within a fixed window of recent slots ----
+//@ spec func rootsInWindow(s *Service, newest phase0.Slot) bool = forall sl phase0.Slot {in(s.beaconBlockRoots, sl)} :: in(s.beaconBlockRoots, sl) ==> sl + 64 >= newest
+//@
+//@ func (*Service).SetBeaconBlockRoot
+//@   requires nolocks() && slot <= 9223372036854775807
+//@   loop 1
+//@     invariant in(s.beaconBlockRoots, slot) && s.beaconBlockRoots[slot] == root
+//@     invariant forall sl phase0.Slot :: visited(sl) && sl + 64 < slot ==> !in(s.beaconBlockRoots, sl)
+//@     invariant forall sl phase0.Slot :: in(s.beaconBlockRoots, sl) ==> sl == slot || in(old(s.beaconBlockRoots), sl)
+//@   // whatever was held before, afterwards only roots of the last 64 slots (and the new one) are held
+//@   ensures rootsInWindow(s, slot)
+//@   ensures in(s.beaconBlockRoots, slot) && s.beaconBlockRoots[slot] == root
+//@   modifies contents(s.beaconBlockRoots)
